@@ -168,6 +168,29 @@ impl Whirlpool {
             && (forall|k: int| 0 <= k < 3 ==> #[trigger] final(self).reward_infos[k] == (if k == index { WhirlpoolRewardInfo { emissions_per_second_x64: emissions_per_second_x64, ..reward_infos[k] } } else { reward_infos[k] }))
             && *final(self) == (Whirlpool { reward_infos: final(self).reward_infos, reward_last_updated_timestamp: timestamp, ..*old(self) }),
 //@ end
+    /// C15 / C17: the token a swap direction takes in / pays out, and the pool's vault for it
+    pub open spec fn input_token_mint_spec(&self, a_to_b: bool) -> Pubkey { if a_to_b { self.token_mint_a } else { self.token_mint_b } }
+    pub open spec fn input_token_vault_spec(&self, a_to_b: bool) -> Pubkey { if a_to_b { self.token_vault_a } else { self.token_vault_b } }
+    pub open spec fn output_token_mint_spec(&self, a_to_b: bool) -> Pubkey { if a_to_b { self.token_mint_b } else { self.token_mint_a } }
+    pub open spec fn output_token_vault_spec(&self, a_to_b: bool) -> Pubkey { if a_to_b { self.token_vault_b } else { self.token_vault_a } }
+    /// C04: the reward authority is the key stored in the first reward slot's extension bytes
+    pub open spec fn reward_authority_spec(&self) -> Pubkey { Pubkey(self.reward_infos[0].extension) }
+//@ fn state/whirlpool.rs input_token_mint in=/^impl Whirlpool \{/ -> r tags=C15,C17
+    ensures r == self.input_token_mint_spec(a_to_b),
+//@ end
+//@ fn state/whirlpool.rs input_token_vault in=/^impl Whirlpool \{/ -> r tags=C15,C17
+    ensures r == self.input_token_vault_spec(a_to_b),
+//@ end
+//@ fn state/whirlpool.rs output_token_mint in=/^impl Whirlpool \{/ -> r tags=C15,C17
+    ensures r == self.output_token_mint_spec(a_to_b),
+//@ end
+//@ fn state/whirlpool.rs output_token_vault in=/^impl Whirlpool \{/ -> r tags=C15,C17
+    ensures r == self.output_token_vault_spec(a_to_b),
+//@ end
+//@ fn state/whirlpool.rs reward_authority in=/^impl Whirlpool \{/ -> r tags=C04
+    ensures r == self.reward_authority_spec(),
+//@ rewrite /Pubkey::from\(self\.reward_infos\[0\]\.extension\)/ => /Pubkey(self.reward_infos[0].extension)/
+//@ end
 //@ fn state/whirlpool.rs update_rewards_and_liquidity in=/^impl Whirlpool \{/ tags=C11,C05,C12,C01
     ensures *final(self) == (Whirlpool { reward_infos: reward_infos, reward_last_updated_timestamp: reward_last_updated_timestamp, liquidity: liquidity, ..*old(self) }),
 //@ end
